@@ -24,18 +24,18 @@ Definition tmatch (ins : sinstr) (i : N) : option N :=
   | IMatch s => if lenN s =? 0 then Some i
                 else if (i <? lenN inp) && (lenN s <=? lenN inp - i) && list_eqb (firstnN (lenN s) (rest i)) s then Some (i + lenN s) else None
   | IMatchOctet b => match rest i with c :: _ => if c =? b then Some (i + 1) else None | [] => None end
-  | IMatchAny _ => match rest i with _ :: r => Some (i + 1 + N.of_nat (skip_trail r)) | [] => None end
+  | IMatchAny _ => match rest i with _ :: r => Some (i + 1 + N.of_nat (skip_trail_w r)) | [] => None end
   | IMatchEol => match rest i with
                  | [] => None
                  | l => let n := utf8_match_eol l in if n =? 0 then None else Some (i + n)
                  end
   | IMatchSet set => match rest i with
                      | [] => None
-                     | l => let '(n, rune) := decode_rune l in if contains set rune then Some (i + N.of_nat n) else None
+                     | l => let '(n, rune) := decode_rune_w l in if contains set rune then Some (i + N.of_nat n) else None
                      end
   | IMatchClass k penum mask => match rest i with
                      | [] => None
-                     | l => let '(n, rune) := decode_rune l in
+                     | l => let '(n, rune) := decode_rune_w l in
                             match class_test ucd k penum mask rune with Some true => Some (i + N.of_nat n) | _ => None end
                      end
   | _ => None
